@@ -9,7 +9,7 @@ META = dict(
                'pmutt.statmech.presets'],
     bounds=dict(quick='worksheets of 1-2 data rows x 3-6 columns; every cell symbolically empty or not (all patterns); ordinary headers of 4 symbolic '
                       'upper-case letters with surrounding blanks; element.X with X of 1-2 symbolic letters; vib_wavenumber / rot_temperature '
-                      'repeated 1-3 times (pandas .N suffixes); list.name(.i), dict.name.key, nasa.a_low.i / a_high.i for every i; numeric cells '
+                      'repeated 1-3 times (pandas .N suffixes); list.name(.i) (names foo/bar and T1/T2), dict.name.key, nasa.a_low.i / a_high.i for every i; numeric cells '
                       'symbolic reals, string cells symbolic with surrounding blanks; every preset and every per-mode model class name'),
     outside_claim=['pandas / openpyxl parsing of the workbook, duplicate-header mangling, sheet names, ASE atoms columns, '
                    'vib_outcar columns', 'ordinary headers containing a special keyword (ambiguous by the documentation)', 'more than 2 rows '
@@ -210,11 +210,13 @@ def h_basic(ctx, nrows, nvib, cols=None):
                 ctx.true(tag + 'no %s when all its cells are empty' % name, name not in rec)
 
 
-def h_listdict(ctx, nrows):
+def h_listdict(ctx, nrows, foo='foo', bar='bar'):
+    """foo / bar: the names of the two list fields (also names that end in a digit, which must not be taken for the index)"""
     rows, expect = [], []
     for r in range(nrows):
         cells, exp = [], dict(lst=[], dct={}, lst2=[])
-        specs = [('l0', 'list.foo', 'lst', None), ('l1', 'list.foo.1', 'lst', None), ('l2', ' list.foo.2', 'lst', None), ('m0', 'list.bar.0', 'lst2', None),
+        specs = [('l0', 'list.%s' % foo, 'lst', None), ('l1', 'list.%s.1' % foo, 'lst', None), ('l2', ' list.%s.2' % foo, 'lst', None),
+                 ('m0', 'list.%s.0' % bar, 'lst2', None),
                  ('d0', 'dict.baz.alpha', 'dct', 'alpha'), ('d1', 'dict.baz.beta ', 'dct', 'beta')]
         if nrows > 1:
             specs = [specs[0], specs[1], specs[4]]
@@ -237,7 +239,7 @@ def h_listdict(ctx, nrows):
     for r, (rec, exp) in enumerate(zip(recs, expect)):
         tag = 'row %d: ' % r
         ctx.true(tag + 'record holds exactly the non-empty fields', len(rec) == (1 if exp['lst'] else 0) + (1 if exp['lst2'] else 0) + (1 if exp['dct'] else 0))
-        for name, key in (('foo', 'lst'), ('bar', 'lst2')):
+        for name, key in ((foo, 'lst'), (bar, 'lst2')):
             if exp[key]:
                 got = rec.get(name)
                 ctx.true(tag + 'list.%s collected' % name, isinstance(got, list) and len(got) == len(exp[key]))
@@ -347,6 +349,8 @@ def groups(tier):
                       no_validate=True, max_paths=20000, budget_s=3000))
         g.append(dict(name='basic/1row/all', harness=h_basic, params=dict(nrows=1, nvib=2), no_validate=True, max_paths=20000, budget_s=3000))
     g.append(dict(name='list-dict/1row', harness=h_listdict, params=dict(nrows=1), no_validate=True, max_paths=20000))
+    g.append(dict(name='list-dict/1row/names-ending-in-a-digit', harness=h_listdict, params=dict(nrows=1, foo='T1', bar='T2'), no_validate=True,
+                  max_paths=20000))
     if th:
         g.append(dict(name='list-dict/2rows', harness=h_listdict, params=dict(nrows=2), no_validate=True, max_paths=20000, budget_s=3000))
     for which in ('a_low', 'a_high'):
